@@ -182,6 +182,10 @@ func Verif_C01_InProcKinds() {
 		}
 		cs.SendMsg(&verifMsg{Payload: reqPayload})
 		cs.CloseSend()
+		// looking at the response headers (any number of times) consumes no message
+		for polls := zv.Choose("header-polls-before-receiving", 3); polls > 0; polls-- {
+			cs.Header()
+		}
 		got := 0
 		for {
 			m := &verifMsg{}
